@@ -228,6 +228,9 @@ PRELUDE = r'''
 (defn hex [s] (def b @"") (each c (string/bytes s) (buffer/format b "%02x" c)) (string b))
 (defn logf [name] (file/open (string outdir "/" name) :w))
 (defn wr [f & xs] (file/write f (string ;xs "\n")) (file/flush f))
+(defn msg? [m] (and (tuple? m) (= 3 (length m)) (number? (m 0)) (number? (m 1))))
+(defn shape [x] (def s (string/format "%q" x)) (string (type x) " " (if (> (length s) 300) (string/slice s 0 300) s)))
+(defn give-shape [r] (cond (= (type r) :core/channel) "core/channel" (and (tuple? r) (= (get r 0) :give)) "give" (string "MALFORMED " (shape r))))
 (defn canon [x]
   (case (type x)
     :number (string/format "%.17g" (if (= x 0) 0 x))
@@ -278,16 +281,20 @@ def render(scn, stall=8):
         if c["mode"] == "take":
             b.append("  (def m (ev/take (chans %d)))" % c["chans"][0])
             b.append("  (def ci %d)" % c["chans"][0])
-            b.append("  (def kind (if (nil? m) :close :take))")
+            b.append("  (def kind (cond (nil? m) :close (msg? m) :take :malformed))")
         else:
             b.append("  (def r (ev/%s %s))" % (c["mode"], mych))
             # a select woken by a close issued from ANOTHER thread is resumed with nil (not [:close chan]); accept both
-            b.append("  (def kind (if (nil? r) :close (r 0)))")
-            b.append("  (def ci (if r (chan-index (r 1)) :nil-from-select))")
-            b.append("  (def m (if r (get r 2)))")
+            b.append("  (def sel-ok (and (tuple? r) (>= (length r) 2) (or (= (r 0) :take) (= (r 0) :close)) (= (type (r 1)) :core/channel)))")
+            b.append("  (def kind (cond (nil? r) :close (not sel-ok) :malformed (r 0)))")
+            b.append("  (def ci (if sel-ok (chan-index (r 1)) (if (nil? r) :nil-from-select :malformed)))")
+            b.append("  (def m (if sel-ok (get r 2) r))")
         b.append("  (cond")
         b.append('    (= kind :close) (do (wr f "closed " ci) (set alive false))')
+        # a value of the wrong shape for this kind of wait: logged, counted as a receipt so that the run can complete
+        b.append('    (= kind :malformed) (do (wr f "malformed " (shape m)) (ev/give ctl [:got]))')
         b.append('    (nil? ci) (wr f "abort")')
+        b.append('    (not (msg? m)) (do (wr f "malformed " (shape m)) (ev/give ctl [:got]))')
         b.append('    (do (wr f "got " (m 0) " " (m 1) " " ci " " (canon (m 2))) (ev/give ctl [:got]))))')
         b.append('(wr f "end")')
         b.append("(file/close f)")
@@ -311,9 +318,9 @@ def render(scn, stall=8):
         for s, (ci, pay) in enumerate(p["msgs"]):
             msg = "[%d %d %s]" % (i, s, janet_expr(pay))
             if p["mode"] == "give":
-                b.append('(wr f "sent %d %d " (type (ev/give (chans %d) %s)))' % (s, ci, ci, msg))
+                b.append('(wr f "sent %d %d " (give-shape (ev/give (chans %d) %s)))' % (s, ci, ci, msg))
             else:
-                b.append('(wr f "sent %d %d " ((ev/select [(chans %d) %s]) 0))' % (s, ci, ci, msg))
+                b.append('(wr f "sent %d %d " (give-shape (ev/select [(chans %d) %s])))' % (s, ci, ci, msg))
             if p["gc"] and s % 3 == 0:
                 b.append("(gccollect)")
         for k in range(p["notes"]):
@@ -393,9 +400,17 @@ def oracle(scn, res):
         last = {}
         for line in logs.get("cons-%d" % c["id"], []):
             w = line.split(" ", 4)
+            if w[0] == "malformed":
+                bad.append(("malformed-receipt", "consumer %d (%s on %r) was resumed with a value of the wrong shape for its wait: %s"
+                            % (c["id"], c["mode"], c["chans"], line[10:300])))
+                continue
             if w[0] != "got":
                 continue
-            pid, seq, ci, cn = int(w[1]), int(w[2]), int(w[3]), w[4] if len(w) > 4 else ""
+            try:
+                pid, seq, ci, cn = int(w[1]), int(w[2]), int(w[3]), w[4] if len(w) > 4 else ""
+            except (ValueError, IndexError):
+                bad.append(("malformed-receipt", "consumer %d logged an unparsable receipt: %s" % (c["id"], line[:300])))
+                continue
             key = (pid, seq)
             if key in got:
                 dup.append(key)
@@ -421,7 +436,7 @@ def oracle(scn, res):
         for p in scn["prods"]:
             for line in logs.get("prod-%d" % p["id"], []):
                 w = line.split()
-                if w and w[0] == "sent":
+                if len(w) >= 2 and w[0] == "sent" and w[1].isdigit():
                     given.add((p["id"], int(w[1])))
         lost = [k for k in missing if k in given]
         stale = any(scn["stale_possible"][sent[k][0]] for k in missing)
@@ -437,6 +452,13 @@ def oracle(scn, res):
         bad.append(("reorder-stale-reader" if stale else "reorder",
                     "consumer %d saw producer %d's messages on channel %d out of order (seq %d before %d)%s"
                     % (cid, pid, ci, a, b, " (a reader on that channel had abandoned an earlier wait)" if stale else "")))
+    for p in scn["prods"]:
+        want = "core/channel" if p["mode"] == "give" else "give"
+        for line in logs.get("prod-%d" % p["id"], []):
+            w = line.split(" ", 3)
+            if w[0] == "sent" and (len(w) < 4 or w[3] != want):
+                bad.append(("malformed-give-result", "producer %d: %s resumed with a value of the wrong shape: %s" % (p["id"], "ev/give" if p["mode"] == "give" else "ev/select [chan x]", line[:300])))
+                break
     # ev/thread resumes caller only after body finished
     for line in main:
         if "BEFORE-END" in line or "RETURNED-BEFORE-DONE" in line:
@@ -446,11 +468,11 @@ def oracle(scn, res):
     if completed:
         for line in main:
             if line.startswith("counts "):
-                if any(int(x) != 0 for x in line.split()[1:]):
+                if any(x != "0" for x in line.split()[1:]):
                     bad.append(("leftover", "all messages accounted for but channels still hold items: " + line))
             if line.startswith("supcount "):
                 w = line.split()
-                if int(w[1]) != 0 or int(w[3]) != 0:
+                if len(w) < 4 or w[1] != "0" or w[3] != "0":
                     bad.append(("supervisor-extra", "extra message on supervisor/control channel: " + line))
         # supervisor messages: exactly once, per-thread order (notes 0..n-1 then the terminal event)
         exp = {}
